@@ -172,6 +172,27 @@ impl<'a> Value<'a> {
         }
     }
 
+    /// Copies strings that only borrow a variable's pool slot or frame memory into owned
+    /// strings on `frame`, so the value stays valid after the scopes that own that storage
+    /// are popped. Everything else passes through unchanged.
+    fn detach(self, pool: &PoolSet<'a>, frame: &'a Arena) -> Self {
+        match self {
+            Value::Str(ArenaCow::Borrowed(s))
+                if pool.contains(s.as_ptr()) || frame.contains_ptr(s.as_ptr()) =>
+            {
+                Value::Str(ArenaCow::Owned(ArenaString::from_str(frame, s)))
+            }
+            Value::Array(items) => {
+                let mut detached = Vec::with_capacity_in(items.len(), frame);
+                for item in items {
+                    detached.push(item.detach(pool, frame));
+                }
+                Value::Array(detached)
+            }
+            other => other,
+        }
+    }
+
     /// Copies frame-allocated data to the persistent pool/arena.
     /// Stack values (Number, Bool, Null) pass through unchanged.
     /// Values already on the target arena pass through (no double-promote).
@@ -505,6 +526,10 @@ impl<'a> Runtime<'a> {
             Stmt::Return { expr, .. } => {
                 let val =
                     if let Some(expr_ref) = expr { self.eval_expr(expr_ref)? } else { Value::Null };
+                // The value leaves every enclosing scope and the callee's frame on its way to
+                // the caller, so it must not keep borrowing storage that is released there.
+                let val =
+                    if self.has_frame_arena() { val.detach(&self.pool, self.frame) } else { val };
                 Ok(ExecFlow::Return(val))
             }
             Stmt::Break { .. } => Ok(ExecFlow::Break),
